@@ -1,6 +1,7 @@
 (* C11 — A default field scopes bare terms and changes nothing else. *)
 Require Import Parser Api Shape Build Scope.
 Require Import ParserScope ParserScope2.
+Require Lex.
 From Coq Require Import List String.
 
 (* Spec/Scope.v: scope f e applies f to every bare leaf that is an operand of AND/OR/NOT/+/-/~/^ or the whole query and to
@@ -12,4 +13,12 @@ Theorem C11_default_field_scopes_bare_terms : forall (o : oracle) (f : string),
   parse_toks o f ts = map_pres f (parse_toks o "" ts).
 Proof. exact C11_scope. Qed.
 
+(* the same for Parse on every input string (any bytes): with a default field f that none of the query's terms denotes,
+   Parse accepts exactly what it accepts without the option and returns the scoped tree *)
+Theorem C11_parse_with_default_field : forall (o : oracle) (cl : Lex.classes) (f s : string),
+  String.eqb f "" = false -> tokens_clean o f (Api.lex_tokens cl s) ->
+  Api.parse o cl f s = map_pres f (Api.parse o cl "" s).
+Proof. intros o cl f s Hf Hc. exact (C11_scope o f Hf (Api.lex_tokens cl s) Hc). Qed.
+
 Print Assumptions C11_default_field_scopes_bare_terms.
+Print Assumptions C11_parse_with_default_field.
